@@ -4,6 +4,7 @@ import Mathlib.Data.Fintype.Card
 import Mathlib.Logic.Equiv.Defs
 import CCV.Lemmas.Pivot
 import CCV.Lemmas.Mask
+import CCV.Lemmas.MaskRev
 /-
   C03 — a party's view reveals nothing beyond its own inputs and outputs.
 
@@ -251,6 +252,76 @@ example : discOk [⟨.hid 0, []⟩, ⟨.tapeK 1, []⟩, ⟨.tapeU 2, []⟩, ⟨.
   decide
 
 end checker
+
+section recipient
+open CCV.Pivot CCV.Mask
+variable {R : Type} [AddCommGroup R]
+
+/-- **Soundness of the checked certificate for an output recipient.**  `cert` / `comp` as in
+    `checked_graph_hides`; `revs` = the reveal messages (the share(s) of the output the recipient does
+    not hold, the forwarded result); `o` = the output node.  If the checker accepts — in particular
+    `revOk`: the output node is `r + (something determined by the other messages, the recipient's own
+    inputs and the masks it knows)` for every reveal message r — and the value of the output node does
+    not depend on the tape (`hout`: this is C01 for the same graph), then the recipient's whole view,
+    reveal messages included, is identically distributed for any two secret vectors that give it the
+    same output. -/
+theorem checked_graph_hides_recipient (sem : Nat → List R → R) (own kn : Nat → R) (g : List Mask.Node)
+    (cert : Cert) (comp revs : List Nat) (o : Nat)
+    (h : discOk g cert = true) (hc : compOk g comp = true)
+    (hr : revOk g (cert.map (·.1) ++ comp) o revs = true)
+    (hout : ∀ x ρ ρ', val sem own kn g o x ρ = val sem own kn g o x ρ') :
+    Hides (fun (x : Nat → R) (ρ : Nat → R) =>
+        ((cert.map (toMsg sem own kn g)).map (fun m => m.f x ρ),
+         comp.map (fun m => val sem own kn g m x ρ),
+         revs.map (fun m => val sem own kn g m x ρ),
+         offPivots (cert.map (toMsg sem own kn g)) ρ))
+      (fun x => val sem own kn g o x (fun _ => 0)) := by
+  intro x x' hx
+  obtain ⟨σ, τ, S⟩ := exists_sim _ (discOk_disc sem own kn g cert h) x x'
+  refine ⟨σ, ⟨Function.LeftInverse.injective S.left, Function.RightInverse.surjective S.right⟩, ?_⟩
+  intro ρ
+  have e1 : (cert.map (toMsg sem own kn g)).map (fun m => m.f x ρ)
+      = (cert.map (toMsg sem own kn g)).map (fun m => m.f x' (σ ρ)) :=
+    List.map_congr_left (fun m hm => S.align ρ m hm)
+  have e2 := compOk_const sem own kn g comp hc x x' ρ (σ ρ)
+  simp only [revOk, Bool.and_eq_true, List.all_eq_true, decide_eq_true_eq, beq_iff_eq] at hr
+  obtain ⟨⟨hw, ho⟩, hrev⟩ := hr
+  -- all message nodes of the view carry equal values in the two runs
+  have hmsg : ∀ j ∈ cert.map (·.1) ++ comp, val sem own kn g j x ρ = val sem own kn g j x' (σ ρ) := by
+    intro j hj
+    rcases List.mem_append.mp hj with hj | hj
+    · obtain ⟨mv, hmv, rfl⟩ := List.mem_map.mp hj
+      exact S.align ρ (toMsg sem own kn g mv) (List.mem_map.mpr ⟨mv, hmv, rfl⟩)
+    · have := List.map_eq_map_iff.mp e2 j hj
+      exact this
+  refine Prod.ext e1 (Prod.ext e2 (Prod.ext ?_ ?_))
+  · apply List.map_congr_left
+    intro r hrm
+    have hro := hrev r hrm
+    have hs := rcls_sound sem own kn g (cert.map (·.1) ++ comp) r hw x x' ρ (σ ρ) hmsg o ho
+    rw [hro.2] at hs
+    simp only [RRel] at hs
+    -- val o − val r is equal in both runs, and val o is the (equal) output
+    have ho1 : val sem own kn g o x ρ = val sem own kn g o x' (σ ρ) := by
+      rw [hout x ρ (fun _ => 0), hout x' (σ ρ) (fun _ => 0)]; exact hx
+    have : val sem own kn g r x ρ = val sem own kn g o x ρ - (val sem own kn g o x ρ - val sem own kn g r x ρ) := by
+      abel
+    rw [this]
+    have hs' : val sem own kn g o x ρ - val sem own kn g r x ρ
+        = val sem own kn g o x' (σ ρ) - val sem own kn g r x' (σ ρ) := hs
+    rw [hs', ho1]; abel
+  · exact (offPivots_congr _ ρ (σ ρ) (fun v hv => S.fixσ ρ v hv)).symm
+
+/-- non-vacuity: x owned by party 1, revealed to party 0.  Party 0 knows f0, f1 (tapeK), not f2
+    (tapeU 2).  Shares: s0 = f0 − f1, s1 = (f1 − f2) + x, s2 = f2 − f0.  Party 0 holds s0 (computes it)
+    and receives s1 (message node 6, pivot f2); at reveal it receives s2 (node 7); output o = (s0+s1)+s2. -/
+example :
+    let g : List Mask.Node := [⟨.hid 0, []⟩, ⟨.tapeK 0, []⟩, ⟨.tapeK 1, []⟩, ⟨.tapeU 2, []⟩,
+      ⟨.sub, [1, 2]⟩, ⟨.sub, [2, 3]⟩, ⟨.add, [5, 0]⟩, ⟨.sub, [3, 1]⟩, ⟨.add, [4, 6]⟩, ⟨.add, [8, 7]⟩]
+    discOk g [(6, 2)] = true ∧ compOk g [] = true ∧ revOk g ([(6, 2)].map (·.1) ++ []) 9 [7] = true := by
+  decide
+
+end recipient
 
 /-- non-vacuity: over ℤ/2 (bits) the input-sharing view of x = 0 and x = 1 has, for each value,
     exactly one tape producing it -/
